@@ -18,7 +18,8 @@ from checks import common as c
 from checks import reqgen as rg
 
 KINDS = ['served', 'served_bidir', 'served_slots', 'agg2', 'agg3', 'no_path_constraint', 'no_baudrate', 'no_feasible_mode',
-         'mode_not_feasible', 'mode_not_feasible_rev', 'no_spectrum', 'not_enough_reserved']
+         'mode_not_feasible', 'mode_not_feasible_rev', 'no_spectrum', 'not_enough_reserved', 'served_bidir2', 'twin_tx_lo',
+         'twin_tx_hi']
 MARGIN = 2
 
 
@@ -82,6 +83,13 @@ def requests_for(kind, tag):
         return [R(f'{tag}s', 'trx A', 'trx C', trx_type='T', mode='ok', bandwidth=100e9)]
     if kind == 'served_bidir':
         return [R(f'{tag}b', 'trx C', 'trx A', trx_type='T', mode='ok2', bandwidth=300e9, bidir=True)]
+    if kind == 'served_bidir2':
+        # a second bidirectional request from the same source transceiver as served_bidir (other destination and mode)
+        return [R(f'{tag}c', 'trx C', 'trx B', trx_type='T', mode='ok', bandwidth=100e9, bidir=True)]
+    if kind in ('twin_tx_lo', 'twin_tx_hi'):
+        # twins: identical in everything but the transmitter output power, so they are NOT identical requests
+        return [R(f'{tag}w', 'trx B', 'trx A', trx_type='T', mode='ok2', bandwidth=100e9,
+                  tx_power=1e-6 if kind == 'twin_tx_lo' else 5e-4)]
     if kind == 'served_slots':
         return [R(f'{tag}m', 'trx A', 'trx B', trx_type='T', mode='ok', bandwidth=200e9,
                   slots=[{'N': -200, 'M': 4}, {'N': None, 'M': None}])]
@@ -129,6 +137,23 @@ def metric_model(rx, rq):
             'lowest_SNR-0.1nm': round(float(np.min(rx.snr_01nm)), 2), 'biggest_SNR-0.1nm': round(float(np.max(rx.snr_01nm)), 2),
             'PDL_penalty': pen('pdl'), 'CD_penalty': pen('chromatic_dispersion'), 'PMD_penalty': pen('pmd'),
             'reference_power': rq.power, 'path_bandwidth': rq.path_bandwidth}
+
+
+_SOLO_ZA = {}
+
+
+def solo_za(kind):
+    """z-a metrics of a bidirectional menu entry computed alone on a fresh network (a request's figures do not depend on
+    the rest of the batch)"""
+    from gnpy.tools.json_io import results_to_json
+    from gnpy.tools.worker_utils import planning
+    if kind not in _SOLO_ZA:
+        net, equipment, _, _ = c.design(topology(), library(thresholds()))
+        res = planning(net, equipment, rg.service(requests_for(kind, 'k0')))
+        r = results_to_json(res[5])['response'][0]
+        props = r.get('path-properties') or r.get('no-path', {}).get('path-properties') or {}
+        _SOLO_ZA[kind] = {m['metric-type']: m['accumulative-value'] for m in props.get('z-a-path-metric', [])}
+    return _SOLO_ZA[kind]
 
 
 def run_case(case):
@@ -244,6 +269,13 @@ def run_case(case):
                     v(f'metric-differs:{name}:{k2}', f'{where}: {name} {k2} = {g!r}, receiver of that direction says {val!r}')
         if rq.bidir:
             tags['bidir'] = 1
+            if 'z-a-path-metric' in props:
+                got = {m['metric-type']: m['accumulative-value'] for m in props['z-a-path-metric']}
+                ref = solo_za(kind)
+                bad = [k2 for k2 in ref if k2 not in ('path_bandwidth',) and got.get(k2) != ref[k2]]
+                if bad:
+                    v('z-a-metric-is-not-this-request\'s', f'{where}: z-a {bad[0]} = {got.get(bad[0])!r}, the same request '
+                      f'computed alone reports {ref[bad[0]]!r}')
         # expected CSV row
         mode = next((m for m in equipment['Transceiver'][rq.tsp].mode if m['format'] == rq.tsp_mode), None)
         rx = pp[-1]
